@@ -121,6 +121,16 @@ def gen_image(rnd):
     gen_image.extra = extra
     return snap, start, a, executed
 
+# (start, bytes, executed addresses)
+HIDDEN = [
+    (50100, [0xCD, 0xBE, 0xC3, 0xCD, 0xBF, 0xC3, 0x18, 0xFE, 0x00, 0x00, 0x06, 0xC3, 0xC9, 0xC3, 0x01, 0x02, 0x03, 0xFF, 0xFF, 0xFF, 0xFF, 0xC9, 0x07, 0x08, 0x09],
+     [50100, 50103, 50106, 50110, 50111, 50112, 50121]),                     # LD B,195 / RET with JP 50121 hidden in the operand
+    (40000, [0xCD, 0x4A, 0x9C, 0xCD, 0x4B, 0x9C, 0x18, 0xFE, 0x00, 0x00, 0x3E, 0x21, 0xC9, 0x01, 0xC9, 0x21, 0x00, 0x00, 0xFF, 0xFF],
+     [40000, 40003, 40006, 40010, 40011, 40012, 40014]),                     # LD A,33 / RET with LD HL,457 hidden, which runs on into a RET
+    (60000, [0xCD, 0x6A, 0xEA, 0xCD, 0x6B, 0xEA, 0x18, 0xFE, 0x00, 0x00, 0x0E, 0xDD, 0xC9, 0x21, 0x34, 0x12, 0xC9, 0xDD, 0x21, 0x00, 0x00, 0xFF],
+     [60000, 60003, 60006, 60010, 60011, 60012, 60016]),                     # LD C,221 / RET with a DD-prefixed RET;LD HL hidden: DD C9 is not a valid pair, so the trace shows DD then RET
+]
+
 def run(ctx, repo):
     n = 120 if ctx.tier == 'thorough' else 24
     ctx.rule('C14.6-pipeline', 'sna2ctl (with and without a code map in three formats) -> sna2skool -> skool2bin folded on %d model images: tiling, mapped addresses inside code blocks, no overlap warnings, bytes reproduced' % n, floor=n - 4)
@@ -129,12 +139,23 @@ def run(ctx, repo):
     cfs = P.cf.sibling('snactl')
     where = 'skoolkit/snactl.py'
     seen = set()
-    for k in range(n):
-        snap, start, end, executed = gen_image(rnd)
-        mode = ('none', 'z80map', 'specemu', 'text$', 'text0x')[k % 5]
+    for k in range(n + 2 * len(HIDDEN)):
+        if k < n:
+            snap, start, end, executed = gen_image(rnd)
+            mode = ('none', 'z80map', 'specemu', 'text$', 'text0x')[k % 5]
+            extra, cut = gen_image.extra, gen_image.cut_executed
+        else:
+            # traces through a hidden instruction (an executed instruction that starts inside the operand of another executed one and
+            # ends beyond the contiguous run), as a simulator records them
+            start, data, executed = HIDDEN[(k - n) // 2]
+            snap = [0] * 65536
+            snap[start:start + len(data)] = data
+            end = start + len(data)
+            mode = ('text$', 'z80map')[(k - n) % 2]
+            extra, cut = [], False
         code_map = None
-        mapped = sorted(set(executed) | set(gen_image.extra))
-        cut_executed = gen_image.cut_executed and mode != 'none'
+        mapped = sorted(set(executed) | set(extra))
+        cut_executed = cut and mode != 'none'
         inside = [a for a in mapped if start <= a < end]
         if mode != 'none' and executed:
             code_map = 'map.' + mode
